@@ -277,6 +277,17 @@ func ruleR021(c *Ctx) {
 			if !ok {
 				return true
 			}
+			// the implementation handed to a helper that runs it: foldCall(ast, fu.Func, args, line)
+			if d := funcValueExec(c, fg, call); d != nil {
+				n++
+				key := fmt.Sprintf("%s#fold-exec[%d]:%s", fname, n, nodeStr(c.Fset, d)+".Func")
+				if c.hasFlagGuard(fg, call, d, "", "IsPure", 0) {
+					c.OK(key, call.Pos(), "the function implementation is handed to a helper that runs it at Generate time only under %s.IsPure", nodeStr(c.Fset, d))
+				} else {
+					c.Violation(key, call.Pos(), "the optimizer hands the function implementation %s.Func to a helper that runs it at Generate time on a path that is not guarded by %s.IsPure: an impure function would run during Generate and its result be frozen into the function", nodeStr(c.Fset, d), nodeStr(c.Fset, d))
+				}
+				return true
+			}
 			sel, ok := ast.Unparen(call.Fun).(*ast.SelectorExpr)
 			if !ok {
 				return true
@@ -1354,4 +1365,41 @@ func rootOrDecl(fd *ast.FuncDecl, f *ast.File) ast.Node {
 		return fd
 	}
 	return f
+}
+
+// funcValueExec: a call H(..., X.Func, ...) of a function of the package whose parameter at that position is called in
+// H's body (foldCall(ast, fu.Func, args, line) with `v, err := f(NewStack(args...), nil)` inside). It returns the
+// descriptor X, or nil.
+func funcValueExec(c *Ctx, pkg *packages.Package, call *ast.CallExpr) ast.Expr {
+	info := pkg.TypesInfo
+	cal := Callee(info, call)
+	if cal == nil || cal.Pkg() != pkg.Types {
+		return nil
+	}
+	hd := findFuncDecl(pkg, cal)
+	if hd == nil || hd.Body == nil || hd.Type.Params == nil {
+		return nil
+	}
+	pi := 0
+	for _, fl := range hd.Type.Params.List {
+		for _, nm := range fl.Names {
+			if pi < len(call.Args) {
+				if sel, ok := ast.Unparen(call.Args[pi]).(*ast.SelectorExpr); ok && sel.Sel.Name == "Func" && isNamed(info.TypeOf(sel.X), modPath+"/funcGen", "Function") {
+					pobj := info.Defs[nm]
+					if containsNodeDeep(hd.Body, func(y ast.Node) bool {
+						ic, ok := y.(*ast.CallExpr)
+						if !ok {
+							return false
+						}
+						id, ok := ast.Unparen(ic.Fun).(*ast.Ident)
+						return ok && info.ObjectOf(id) == pobj
+					}) {
+						return sel.X
+					}
+				}
+			}
+			pi++
+		}
+	}
+	return nil
 }
